@@ -367,7 +367,9 @@ PROPS["C20"] = {
              "not byte-reproducible, so judged by what holds for any random bytes: no call fails, every text arrives intact, SMP with equal secrets succeeds, no two sessions share a session id, and no DATA RACE report. "
              " Non-trivial: at least 4 pairs were running at the same logical moment and the case made >= 4 calls per pair."),
     "assumptions": COMMON_ASSUME + ["the harness owns no shared mutable state between pairs (its statistics are mutex-protected and written outside the measured section)"],
+    "exhaustive_checks": ["C20stall"],
     "tests": [
+        {"name": "TestProp_C20_Stall", "kind": "plain", "quick": {"shards": 4, "timeout": 900}, "thorough": {"shards": 4, "timeout": 3000}},
         {"name": "TestProp_C20_Transcripts", "quick": {"shards": 4, "checks": 4, "timeout": 600}, "thorough": {"shards": 8, "checks": 60, "timeout": 3000}},
         {"name": "TestProp_C20_SysRand", "build": "race", "race_is_violation": True, "quick": {"shards": 2, "checks": 3, "timeout": 900}, "thorough": {"shards": 4, "checks": 40, "timeout": 3000}},
         {"name": "TestProp_C20_Race", "build": "race", "race_is_violation": True, "quick": {"shards": 2, "checks": 3, "timeout": 900}, "thorough": {"shards": 4, "checks": 30, "timeout": 3000}},
@@ -387,7 +389,7 @@ _EXTRA = {
     "C16": " Added: form 7 - a D-H Commit of a forbidden version (genuine, or relabelled and correctly addressed) after 0..5 handshake messages and in the established session: no reply, no state change, the handshake completes and text flows.",
     "C18": " Added: End() closes the books for resending; C18faults (failing read at every position of a key exchange) and C18ended (the peer's error message at five points around peer-ended/End()/new session) are enumerated; texts accepted while waiting for encryption must all be transmitted in the call that starts the session (C18queued: 1-3 queued texts, time passing on either side before the peer answers, with or without an earlier session).",
     "C19": " Added: runs of forgeries walking over the acceptable key-id pairs, unauthenticated fragment floods with reserved/foreign/unparsable tags, error-request plus re-key cycles with a silent user, listen-only parties whose only output is the heartbeat.",
-    "C20": " Added: the application's memory is judged: pass-phrase buffers shared by all pairs must be unchanged, and every message or plaintext handed out by the library must still read as it did when returned (checked after each solo run and after the concurrent rounds); every pair provokes a generated error message while encrypted.",
+    "C20": " Added: the application's memory is judged: pass-phrase buffers shared by all pairs must be unchanged, and every message or plaintext handed out by the library must still read as it did when returned (checked after each solo run and after the concurrent rounds); every pair provokes a generated error message while encrypted; C20sysrand optionally gives all A sides one freshly loaded account key object; C20stall parks one conversation inside read k of its own randomness source (k = 0..9, either party, both versions) and requires an unrelated pair to run a whole session meanwhile.",
     "C08": " Added: C08faults - one party's randomness fails from read k on (k=0..14, persistent or one-shot, error or short read) during a handshake; secrets of an exchange the party has left must be gone, decided by presenting the refused final message once more on a healed source.",
     "C07": " Added: for Send under required encryption the trigger is repeated (1x quick, 2x thorough) at every point of every schedule.",
     "C12": " Added: C12sync - two real otr3 parties: every sequence of up to 3 (thorough: 4) steps over {start, answer asked-or-not, abort, deliver, lose} by either user, then AbortAuthentication and a fresh run by either user, which must succeed on both sides; a StartAuthenticate that fails for lack of randomness, idle or mid-run.",
